@@ -219,3 +219,60 @@ func VH_C10_par_addref_release() {
 	c3.Release()
 	vAssert(h.shutdowns == 1, "C10.par.addref.shutdown-after-all-released")
 }
+
+// vGateHook: a capability whose Send stays inside the hook until the gate opens
+type vGateHook struct {
+	vHook
+	gate    chan struct{}
+	entered int
+}
+
+func (h *vGateHook) Send(ctx context.Context, s Send) (*Answer, ReleaseFunc) {
+	h.entered++
+	<-h.gate
+	h.sends++
+	return ErrorAnswer(s.Method, newError("vGateHook")), func() {}
+}
+
+// Resolution while a call is still inside the promise's hook: Fulfill waits for that call (no
+// shutdown of the promise hook under a running call), completes once the call has returned, later
+// calls go to the resolution, and both hooks are shut down exactly once when everything is released.
+// Scripted with cooperative goroutines: call enters the hook, Fulfill starts and waits, the call
+// is let go.
+func VH_C10_fulfill_during_call() {
+	ph := &vGateHook{gate: make(chan struct{})}
+	th := &vHook{}
+	c, cp := NewPromisedClient(ph)
+	target := NewClient(th)
+	callDone, fulfilled := false, false
+	go func() {
+		_, rel := c.SendCall(context.Background(), Send{})
+		rel()
+		callDone = true
+	}()
+	vSettle()
+	vReach("call-inside-hook")
+	vAssert(ph.entered == 1 && !callDone, "C10.during.call-is-inside-the-hook")
+	go func() {
+		cp.Fulfill(target)
+		fulfilled = true
+	}()
+	vSettle()
+	vAssert(ph.shutdowns == 0, "C10.during.no-shutdown-while-a-call-is-in-progress")
+	close(ph.gate)
+	vSettle()
+	vReach("released")
+	vAssert(callDone, "C10.during.call-completes")
+	vAssert(fulfilled, "C10.during.fulfill-completes-once-the-call-has-returned")
+	if !fulfilled {
+		return
+	}
+	vAssert(ph.shutdowns == 1, "C10.during.promise-hook-shut-down-exactly-once")
+	c.SendCall(context.Background(), Send{})
+	vAssert(th.sends == 1, "C10.during.later-calls-reach-the-resolution")
+	target.Release()
+	vAssert(th.shutdowns == 0, "C10.during.transferred-reference-keeps-target-alive")
+	c.Release()
+	vAssert(th.shutdowns == 1 && ph.shutdowns == 1, "C10.during.shutdown-exactly-once")
+	vAssert(vLocksHeld() == 0, "C10.during.no-lock-held")
+}
